@@ -3,7 +3,7 @@
     (tied to the code by the correspondence run of checks/C33.py). *)
 From Coq Require Import Arith List Bool Permutation Sorted.
 Import ListNotations.
-Require Import C33_Index C33_IndexProofs.
+Require Import C33_Index C33_IndexProofs C33_Compose.
 
 Theorem C33_stripe_spec t T n i : T > 0 -> (In i (stripe t T n) <-> i < n /\ exists k, i = t + k * T).
 Proof. exact (stripe_spec t T n i). Qed.
@@ -144,4 +144,31 @@ Theorem C33_squares_nonvac :
   squares_of 3 0 = [(0, 1); (1, 2); (4, 5); (5, 6)] /\ squares_of 3 5 = [(0, 6); (1, 5); (2, 4); (3, 3)] /\ squares_of 3 6 = [].
 Proof. exact (@squares_nonvac). Qed.
 Print Assumptions C33_squares_nonvac.
+
+
+
+Theorem C33_p2d_different_workers_never_share_an_index gridSize np rt T pass w1 w2 k1 k2 ta tb p q :
+  In pass (p2d_passes gridSize np rt) ->
+  w1 < T -> w2 < T -> w1 <> w2 ->
+  In k1 (stripe w1 T (length pass)) -> In k2 (stripe w2 T (length pass)) ->
+  nth_error pass k1 = Some ta -> nth_error pass k2 = Some tb ->
+  In p ta -> In q tb -> share_index p q = false.
+Proof. exact (@p2d_different_workers_never_share_an_index gridSize np rt T pass w1 w2 k1 k2 ta tb p q). Qed.
+Print Assumptions C33_p2d_different_workers_never_share_an_index.
+
+Theorem C33_p2d_ext_different_workers_never_share_an_index gridSize nproc rt T pass w1 w2 k1 k2 ta tb p q :
+  nproc >= 2 -> In pass (p2d_passes_ext gridSize nproc rt) ->
+  w1 < T -> w2 < T -> w1 <> w2 ->
+  In k1 (stripe w1 T (length pass)) -> In k2 (stripe w2 T (length pass)) ->
+  nth_error pass k1 = Some ta -> nth_error pass k2 = Some tb ->
+  In p ta -> In q tb -> share_index p q = false.
+Proof. exact (@p2d_ext_different_workers_never_share_an_index gridSize nproc rt T pass w1 w2 k1 k2 ta tb p q). Qed.
+Print Assumptions C33_p2d_ext_different_workers_never_share_an_index.
+
+Theorem C33_p2d_workers_nonvac :
+  exists pass ta tb, nth_error (p2d_passes 9 4 HalfMatrix) 1 = Some pass /\
+    In 0 (stripe 0 2 (length pass)) /\ In 1 (stripe 1 2 (length pass)) /\
+    nth_error pass 0 = Some ta /\ nth_error pass 1 = Some tb /\ ta <> [] /\ tb <> [].
+Proof. exact (@p2d_workers_nonvac). Qed.
+Print Assumptions C33_p2d_workers_nonvac.
 
